@@ -4,15 +4,48 @@
 // file, compiled only with the build tag `verif`.
 package crypto
 
+// NUT-00 hash_to_curve: sha256(DS || msg), then sha256(h || le32(counter)) for
+// counter = 0, 1, ... until 02 || hash is a point (spec functions h2c.search,
+// h2c in the prelude).
 //@ func HashToCurve
-//@   tags C11
-//@   ensures @spec err == nil ==> result != nil && pk.pt(*result) == h2c(bytes(message))
-//@   ensures @errnil err != nil ==> result == nil
+//@   tags C11 C04 C10 C01
+//@   safety C06 C11
+//@   ensures @spec [C11] err == nil ==> result != nil && pk.pt(*result) == h2c(bytes(message))
+//@   ensures @errnil [C11] err != nil ==> result == nil
+//@   ensures @exhaust [C11] err != nil ==> (forall c :: 0 <= c && c < 65536 ==> !pt.parseok(h2c.cand(sha256(bcat(bytesOf("Secp256k1_HashToCurve_Cashu_"), bytes(message))), c)))
+//@   loop 1 invariant 0 <= counter && bytes(msgToHash) == sha256(bcat(bytesOf("Secp256k1_HashToCurve_Cashu_"), bytes(message))) && h2c.search(bytes(msgToHash), counter) == h2c.search(bytes(msgToHash), 0) && (forall c :: 0 <= c && c < counter ==> !pt.parseok(h2c.cand(bytes(msgToHash), c)))
 
+// B_ = Y + rG
+//@ func BlindMessage
+//@   tags C10
+//@   safety C06 C10
+//@   ensures @blind [C10] r2 == nil ==> r0 != nil && pk.pt(*r0) == padd(h2c(bytesOf(secret)), smul(sc.of(r.Key), pt.G)) && r1 == r
+
+// C_ = k B_
 //@ func SignBlindedMessage
 //@   tags C10
-//@   ensures @nonnil result != nil
+//@   safety C06 C10
+//@   ensures @sign [C10] result != nil && pk.pt(*result) == smul(sc.of(k.Key), pk.pt(*B_))
+
+// C = C_ - rK
+//@ func UnblindSignature
+//@   tags C10
+//@   safety C06 C10
+//@   ensures @unblind [C10] result != nil && pk.pt(*result) == padd(pk.pt(*C_), smul(sneg(sc.of(r.Key)), pk.pt(*K)))
+
+// k * hash_to_curve(secret) == C
+//@ func verify
+//@   tags C10 C04
+//@   safety C06 C10
+//@   ensures @iff [C04,C10] result <==> pk.pt(*C) == smul(sc.of(k.Key), pk.pt(*Y))
+
+//@ func Verify
+//@   tags C10 C04
+//@   safety C06 C10
+//@   ensures @sound [C04,C10] result ==> pk.pt(*C) == smul(sc.of(k.Key), h2c(bytesOf(secret)))
+//@   ensures @complete [C04,C10] pk.pt(*C) == smul(sc.of(k.Key), h2c(bytesOf(secret))) && (exists c :: 0 <= c && c < 65536 && pt.parseok(h2c.cand(sha256(bcat(bytesOf("Secp256k1_HashToCurve_Cashu_"), bytesOf(secret))), c))) ==> result
 
 //@ func GenerateDLEQ
 //@   tags C10
+//@   safety C06 C10
 //@   ensures @nonnil r0 != nil && r1 != nil
